@@ -68,7 +68,7 @@ def _projects():
                     fs[p] = zoo[p]
         out[f"zoo-{lang}"] = (fs, cfg)
     out["hostile-idents"] = ({"mod.py": PY_HOSTILE_BODY}, {"nesting": {"max_nesting_depth": 2}})
-    out["syntax-error"] = ({"broken.py": "def f(:\n    pass\n", "broken.ts": "function ( {{{\n", "ok.py": "print(1)\n", "nul.py": "def f(a):\n    return a\x00\n"}, {})
+    out["syntax-error"] = ({"broken.py": "def f(:\n    pass\n", "broken.ts": "function ( {{{\n", "ok.py": "print(1)\n", "nul.py": "def f(a):\n    return a\x00\n", "hugeint.py": "LIMIT = " + "9" * 5000 + "\n"}, {})
     out["hostile-names"] = ({n: "import os\nprint('x', 3601)\nclass A_Manager:\n    pass\n" for n in HOSTILE_NAMES}, {})
     # a target spelled with an interior `..` segment (see TARGETS)
     out["dotdot"] = ({"pkg/deep.py": PY_HOSTILE_BODY, "pkg/more.ts": "export function f(v: number) {\n  console.log(v);\n  return v * 3601;\n}\n", "other/keep.py": '"""ok."""\n'}, {"nesting": {"max_nesting_depth": 2}})
